@@ -9,12 +9,15 @@
    Which members each function copies is NOT written here: it is read from the composite
    literals of the Go source (gen/ReflectGen.v: export_sites / import_sites), so a copy line
    added to or removed from the Go code changes what this model computes.
-   Exported form = the same term type with scalars carrying no Kind / WellKnownTypeName.
-   Inline (non-ref) object / oneof / enum fields are not representable: the export never
-   produces them.  No proofs here. *)
-From Coq Require Import String List NArith ZArith Bool.
+   The exported form is a term type of its own (ExportForm.v, modelled on schema.proto): the
+   export maps root / fschema / prop to xroot / xfield / xprop, the import maps them back and has
+   to recompute what the form does not carry (Kind, WellKnownTypeName).  Inline (non-ref) object /
+   oneof / enum fields are representable ([XInline], content not modelled): the export never
+   produces them and the import cannot link them.  No proofs here. *)
+From Coq Require Import String Ascii List NArith ZArith Bool.
 From J5V.lib Require Import Outcome.
 From J5V.model Require Import ReflectDesc ReflectSchema Reflect.
+From J5V.model Require Export ExportForm.
 From J5V.gen Require ReflectGen.
 Import ListNotations.
 Local Open Scope bool_scope.
@@ -36,66 +39,67 @@ Definition keeps (b : bool) (s : str) : str := if b then s else [].
 Definition no_ref : ref := ([], []).
 
 (* ---------------------------------------------------------------- export *)
-Fixpoint export_field (f : fschema) : fschema :=
+(* ToJ5Field: reader's field schema -> schema_j5pb.Field *)
+Fixpoint export_field (f : fschema) : xfield :=
   match f with
-  | FScalar _ p => FScalar None p                       (* ScalarSchema.ToJ5Field returns s.Proto *)
+  | FScalar _ p => XScalar p                            (* ScalarSchema.ToJ5Field returns s.Proto *)
   | FAny od ts lr =>
       let s := "AnyField.ToJ5Field" in
-      FAny (keepb (xc s "AnyField" "OnlyDefined") od) (keepl (xc s "AnyField" "Types") ts) (keep (xc s "AnyField" "ListRules") lr)
+      XAny (keepb (xc s "AnyField" "OnlyDefined") od) (keepl (xc s "AnyField" "Types") ts) (keep (xc s "AnyField" "ListRules") lr)
   | FEnum r rules lr ext =>
       let s := "EnumField.ToJ5Field" in
-      FEnum (if xc s "EnumField" "Schema" then r else no_ref) (keep (xc s "EnumField" "Rules") rules)
+      XEnum (if xc s "EnumField" "Schema" then XRef r else XUnset) (keep (xc s "EnumField" "Rules") rules)
             (keep (xc s "EnumField" "ListRules") lr) (keep (xc s "EnumField" "Ext") ext)
   | FObject r fl rules ext =>
       let s := "ObjectField.ToJ5Field" in
-      FObject (if xc s "ObjectField" "Schema" then r else no_ref) (keepb (xc s "ObjectField" "Flatten") fl)
+      XObject (if xc s "ObjectField" "Schema" then XRef r else XUnset) (keepb (xc s "ObjectField" "Flatten") fl)
               (keep (xc s "ObjectField" "Rules") rules) (keep (xc s "ObjectField" "Ext") ext)
   | FOneof r rules lr ext =>
       let s := "OneofField.ToJ5Field" in
-      FOneof (if xc s "OneofField" "Schema" then r else no_ref) (keep (xc s "OneofField" "Rules") rules)
+      XOneof (if xc s "OneofField" "Schema" then XRef r else XUnset) (keep (xc s "OneofField" "Rules") rules)
              (keep (xc s "OneofField" "ListRules") lr) (keep (xc s "OneofField" "Ext") ext)
   | FMap item rules ext =>
       let s := "MapField.ToJ5Field" in
-      FMap (export_field item) (keep (xc s "MapField" "Rules") rules) (keep (xc s "MapField" "Ext") ext)
+      XMap (export_field item) (keep (xc s "MapField" "Rules") rules) (keep (xc s "MapField" "Ext") ext)
   | FArray item rules ext =>
       let s := "ArrayField.ToJ5Field" in
-      FArray (export_field item) (keep (xc s "ArrayField" "Rules") rules) (keep (xc s "ArrayField" "Ext") ext)
+      XArray (export_field item) (keep (xc s "ArrayField" "Rules") rules) (keep (xc s "ArrayField" "Ext") ext)
   end.
 
-Definition export_prop (p : prop) : prop :=
+Definition export_prop (p : prop) : xprop :=
   match p with Prop_ j path rq eo d s =>
     let t := "ObjectProperty.ToJ5Proto" in
-    Prop_ (keeps (xc t "ObjectProperty" "Name") j) (keepl (xc t "ObjectProperty" "ProtoField") path)
+    XProp (keeps (xc t "ObjectProperty" "Name") j) (keepl (xc t "ObjectProperty" "ProtoField") path)
           (keepb (xc t "ObjectProperty" "Required") rq) (keepb (xc t "ObjectProperty" "ExplicitlyOptional") eo)
           (keeps (xc t "ObjectProperty" "Description") d) (export_field s)
   end.
 
-Definition export_option (o : enumoption) : enumoption :=
+Definition export_option (o : enumoption) : xoption :=
   match o with EnumOption name num d info =>
     let t := "EnumOption.ToJ5EnumValue" in
-    EnumOption (keeps (xc t "Enum_Option" "Name") name) (if xc t "Enum_Option" "Number" then num else 0%Z)
-               (keeps (xc t "Enum_Option" "Description") d) (keep (xc t "Enum_Option" "Info") info)
+    XOption (keeps (xc t "Enum_Option" "Name") name) (if xc t "Enum_Option" "Number" then num else 0%Z)
+            (keeps (xc t "Enum_Option" "Description") d) (keep (xc t "Enum_Option" "Info") info)
   end.
 
-Definition export_root (r : root) : root :=
+Definition export_root (r : root) : xroot :=
   match r with
   | RObject name d entity anym ps =>
       let t := "ObjectSchema.ToJ5Object" in
-      RObject (keeps (xc t "Object" "Name") name) (keeps (xc t "Object" "Description") d)
-              (keep (xc t "Object" "Entity") entity) (keepl (xc t "Object" "AnyMember") anym)
-              (keepl (xc t "Object" "Properties") (map export_prop ps))
+      XObjectR (keeps (xc t "Object" "Name") name) (keeps (xc t "Object" "Description") d)
+               (keep (xc t "Object" "Entity") entity) (keepl (xc t "Object" "AnyMember") anym)
+               (keepl (xc t "Object" "Properties") (map export_prop ps))
   | ROneof name d ps =>
       let t := "OneofSchema.ToJ5Root" in
-      ROneof (keeps (xc t "Oneof" "Name") name) (keeps (xc t "Oneof" "Description") d)
-             (keepl (xc t "Oneof" "Properties") (map export_prop ps))
+      XOneofR (keeps (xc t "Oneof" "Name") name) (keeps (xc t "Oneof" "Description") d)
+              (keepl (xc t "Oneof" "Properties") (map export_prop ps))
   | REnum name d prefix opts info =>
       let t := "EnumSchema.ToJ5Root" in
-      REnum (keeps (xc t "Enum" "Name") name) (keeps (xc t "Enum" "Description") d) (keeps (xc t "Enum" "Prefix") prefix)
-            (keepl (xc t "Enum" "Options") (map export_option opts)) (keepl (xc t "Enum" "Info") info)
+      XEnumR (keeps (xc t "Enum" "Name") name) (keeps (xc t "Enum" "Description") d) (keeps (xc t "Enum" "Prefix") prefix)
+             (keepl (xc t "Enum" "Options") (map export_option opts)) (keepl (xc t "Enum" "Info") info)
   end.
 
 (* addSchemas: every linked entry of every package; an unlinked entry is a nil dereference *)
-Fixpoint export_set (st : sset) : outcome (list (ref * root)) :=
+Fixpoint export_set (st : sset) : outcome (list (ref * xroot)) :=
   match st with
   | [] => Ok []
   | (k, Linked r) :: rest => obind (export_set rest) (fun l => Ok ((k, export_root r) :: l))
@@ -121,6 +125,7 @@ Definition scalar_site (p : sproto) : string :=
   | PDecimal _ _ => "schemaFromDesc/Field_Decimal"
   end.
 
+(* the scalar arms of schemaFromDesc: Kind and WellKnownTypeName are recomputed from the alternative *)
 Definition import_scalar (p : sproto) : res fschema :=
   let kw : res (kind * str) :=
     match p with
@@ -138,31 +143,46 @@ Definition import_scalar (p : sproto) : res fschema :=
   if ic (scalar_site p) "ScalarSchema" "Proto" then ROk (FScalar (Some kw) p)
   else RErr "scalar description not kept").
 
-Fixpoint import_field (f : fschema) : res fschema :=
+(* the `schema` oneof of an object / oneof / enum field: a Ref goes through refTo; an inline schema
+   is built privately and the field gets item.AsRef(), a RefSchema whose To is nil, which
+   assertRefsLink rejects ("unresolved reference") whenever the field is reachable from a package
+   schema: modelled as an error of the field; an unset oneof is the default arm *)
+Definition import_schema (site : string) (typ : string) (s : xschema) : res ref :=
+  match s with
+  | XRef r => ROk (if ic site typ "Ref" then r else no_ref)
+  | XInline => RErr "inline schema: the field's ref is never linked (assertRefsLink: unresolved reference)"
+  | XUnset => RErr "unsupported oneof schema type"
+  end.
+
+(* schemaFromDesc: schema_j5pb.Field -> the reader's field schema *)
+Fixpoint import_field (f : xfield) : res fschema :=
   match f with
-  | FScalar _ p => import_scalar p
-  | FAny od ts lr =>
+  | XScalar p => import_scalar p
+  | XAny od ts lr =>
       let s := "schemaFromDesc/Field_Any" in
       ROk (FAny (keepb (ic s "AnyField" "OnlyDefined") od) (keepl (ic s "AnyField" "Types") ts) (keep (ic s "AnyField" "ListRules") lr))
-  | FEnum r rules lr ext =>
+  | XEnum sch rules lr ext =>
       let s := "schemaFromDesc/Field_Enum/EnumField_Ref" in
-      ROk (FEnum (if ic s "EnumField" "Ref" then r else no_ref) (keep (ic s "EnumField" "Rules") rules)
-                 (keep (ic s "EnumField" "ListRules") lr) (keep (ic s "EnumField" "Ext") ext))
-  | FObject r fl rules ext =>
+      rbind (import_schema s "EnumField" sch) (fun r =>
+      ROk (FEnum r (keep (ic s "EnumField" "Rules") rules)
+                 (keep (ic s "EnumField" "ListRules") lr) (keep (ic s "EnumField" "Ext") ext)))
+  | XObject sch fl rules ext =>
       let s := "schemaFromDesc/Field_Object/ObjectField_Ref" in
-      ROk (FObject (if ic s "ObjectField" "Ref" then r else no_ref) (keepb (ic s "ObjectField" "Flatten") fl)
-                   (keep (ic s "ObjectField" "Rules") rules) (keep (ic s "ObjectField" "Ext") ext))
-  | FOneof r rules lr ext =>
+      rbind (import_schema s "ObjectField" sch) (fun r =>
+      ROk (FObject r (keepb (ic s "ObjectField" "Flatten") fl)
+                   (keep (ic s "ObjectField" "Rules") rules) (keep (ic s "ObjectField" "Ext") ext)))
+  | XOneof sch rules lr ext =>
       let s := "schemaFromDesc/Field_Oneof/OneofField_Ref" in
-      ROk (FOneof (if ic s "OneofField" "Ref" then r else no_ref) (keep (ic s "OneofField" "Rules") rules)
-                  (keep (ic s "OneofField" "ListRules") lr) (keep (ic s "OneofField" "Ext") ext))
-  | FMap item rules ext =>
+      rbind (import_schema s "OneofField" sch) (fun r =>
+      ROk (FOneof r (keep (ic s "OneofField" "Rules") rules)
+                  (keep (ic s "OneofField" "ListRules") lr) (keep (ic s "OneofField" "Ext") ext)))
+  | XMap item rules ext =>
       let s := "schemaFromDesc/Field_Map" in
       rbind (import_field item) (fun it =>
       if assigns ReflectGen.import_sites s "Schema" then
         ROk (FMap it (keep (ic s "MapField" "Rules") rules) (keep (ic s "MapField" "Ext") ext))
       else RErr "map item schema not set")
-  | FArray item rules ext =>
+  | XArray item rules ext =>
       let s := "schemaFromDesc/Field_Array" in
       rbind (import_field item) (fun it =>
       if assigns ReflectGen.import_sites s "Schema" then
@@ -170,8 +190,9 @@ Fixpoint import_field (f : fschema) : res fschema :=
       else RErr "array item schema not set")
   end.
 
-Definition import_prop (p : prop) : res prop :=
-  match p with Prop_ j path rq eo d s =>
+(* objectPropertyFromDesc *)
+Definition import_prop (p : xprop) : res prop :=
+  match p with XProp j path rq eo d s =>
     let t := "objectPropertyFromDesc" in
     rbind (import_field s) (fun s' =>
     if ic t "ObjectProperty" "Schema" then
@@ -181,33 +202,34 @@ Definition import_prop (p : prop) : res prop :=
     else RErr "property schema not kept")
   end.
 
-Fixpoint import_props (ps : list prop) : res (list prop) :=
+Fixpoint import_props (ps : list xprop) : res (list prop) :=
   match ps with
   | [] => ROk []
   | p :: r => rbind (import_prop p) (fun p' => rbind (import_props r) (fun r' => ROk (p' :: r')))
   end.
 
-Definition import_option (o : enumoption) : enumoption :=
-  match o with EnumOption name num d info =>
+Definition import_option (o : xoption) : enumoption :=
+  match o with XOption name num d info =>
     let t := "enumSchemaFromDesc" in
     EnumOption (keeps (ic t "EnumOption" "name") name) (if ic t "EnumOption" "number" then num else 0%Z)
                (keeps (ic t "EnumOption" "description") d) (keep (ic t "EnumOption" "Info") info)
   end.
 
-Definition import_root (r : root) : res root :=
+(* buildRoot: objectSchemaFromDesc / oneofSchemaFromDesc / enumSchemaFromDesc *)
+Definition import_root (r : xroot) : res root :=
   match r with
-  | RObject name d entity anym ps =>
+  | XObjectR name d entity anym ps =>
       let t := "objectSchemaFromDesc" in
       rbind (import_props ps) (fun ps' =>
       ROk (RObject (keeps (ic t "rootSchema" "name") name) (keeps (ic t "rootSchema" "description") d)
                    (keep (ic t "ObjectSchema" "Entity") entity) (keepl (ic t "ObjectSchema" "AnyMember") anym)
                    (keepl (ic t "ObjectSchema" "Properties") ps')))
-  | ROneof name d ps =>
+  | XOneofR name d ps =>
       let t := "oneofSchemaFromDesc" in
       rbind (import_props ps) (fun ps' =>
       ROk (ROneof (keeps (ic t "rootSchema" "name") name) (keeps (ic t "rootSchema" "description") d)
                   (keepl (ic t "OneofSchema" "Properties") ps')))
-  | REnum name d prefix opts info =>
+  | XEnumR name d prefix opts info =>
       let t := "enumSchemaFromDesc" in
       ROk (REnum (keeps (ic t "rootSchema" "name") name) (keeps (ic t "rootSchema" "description") d)
                  (keeps (ic t "EnumSchema" "NamePrefix") prefix) (keepl (ic t "EnumSchema" "Options") (map import_option opts))
@@ -231,7 +253,7 @@ Fixpoint add_refs (st : sset) (rs : list ref) : sset :=
   | k :: r => add_refs (fst (ref_to st k)) r
   end.
 
-Fixpoint build_schemas (st : sset) (entries : list (ref * root)) : res sset :=
+Fixpoint build_schemas (st : sset) (entries : list (ref * xroot)) : res sset :=
   match entries with
   | [] => ROk st
   | (k, r) :: rest =>
@@ -249,7 +271,7 @@ Fixpoint build_schemas (st : sset) (entries : list (ref * root)) : res sset :=
 Definition all_linked (st : sset) : bool :=
   forallb (fun ke => match snd ke with Linked _ => true | Placeholder => false end) st.
 
-Definition import_api (entries : list (ref * root)) : res sset :=
+Definition import_api (entries : list (ref * xroot)) : res sset :=
   rbind (build_schemas [] entries) (fun st =>
   if all_linked st then ROk st else RErr "unresolved reference").
 
@@ -269,6 +291,17 @@ Fixpoint field_importable (f : fschema) : bool :=
   | _ => true
   end.
 Definition root_importable (r : root) : bool := forallb (fun p => field_importable (p_schema p)) (root_props r).
+(* the same on the exported form, plus: every schema oneof is a Ref *)
+Definition xschema_importable (s : xschema) : bool := match s with XRef _ => true | _ => false end.
+Fixpoint xfield_importable (f : xfield) : bool :=
+  match f with
+  | XScalar (PInteger fmt _ _) => match int_kind fmt with Some _ => true | None => false end
+  | XScalar (PFloat fmt _ _) => match float_kind fmt with Some _ => true | None => false end
+  | XEnum s _ _ _ | XObject s _ _ _ | XOneof s _ _ _ => xschema_importable s
+  | XMap it _ _ | XArray it _ _ => xfield_importable it
+  | _ => true
+  end.
+Definition xroot_importable (r : xroot) : bool := forallb (fun p => xfield_importable (xp_schema p)) (xroot_props r).
 
 (* the hypotheses of the round-trip theorem as computable checks over a reflected set *)
 Fixpoint keys_distinct (st : sset) : bool :=
@@ -361,6 +394,25 @@ Definition rhs_table_ok (expected : string -> string -> string -> option string)
                       forallb (fun kv => match expected site typ (fst kv) with
                                          | Some want => String.eqb want (snd kv)
                                          | None => true
+                                         end) kvs end) tbl.
+
+(* every member an export literal sets is accounted for: it is a member the model copies (with the
+   expected source text) or its value is itself a composite literal "&T{}" (a wrapper or a constant,
+   whose own members are further rows of the table); a member set from any other expression (a new
+   exported field the model knows nothing about) fails the check *)
+Definition is_literal_text (v : string) : bool :=
+  match v with
+  | String "&" rest => (match rev (list_ascii_of_string rest) with
+                        | "}"%char :: "{"%char :: _ => true
+                        | _ => false
+                        end)
+  | _ => false
+  end.
+Definition export_table_complete (tbl : list (string * string * list (string * string))) : bool :=
+  forallb (fun e => match e with (site, typ, kvs) =>
+                      forallb (fun kv => match expected_export typ (fst kv) with
+                                         | Some want => String.eqb want (snd kv)
+                                         | None => is_literal_text (snd kv)
                                          end) kvs end) tbl.
 
 (* the Kind a scalar import site sets, as Go source text *)
